@@ -50,12 +50,12 @@ type subtable struct {
 }
 
 type synthCase struct {
-	Subtables  []subtable `json:"subtables"` // sorted by (platform, encoding) as the specification requires
-	FontPage   uint16     `json:"font_page"` // OS/2 font page argument of ProcessCmap
-	Exhaustive bool       `json:"exhaustive"`
-	Disc       *disc      `json:"discrepancy,omitempty"`
+	Subtables  []subtable     `json:"subtables"` // sorted by (platform, encoding) as the specification requires
+	FontPage   uint16         `json:"font_page"` // OS/2 font page argument of ProcessCmap
+	Exhaustive bool           `json:"exhaustive"`
+	Disc       *disc          `json:"discrepancy,omitempty"`
 	Count      map[string]int `json:"discrepancy_counts,omitempty"`
-	Selected   string     `json:"cmap_type,omitempty"`
+	Selected   string         `json:"cmap_type,omitempty"`
 }
 
 // ---- serialisers (written from the OpenType specification, independent of the library) ----------
